@@ -1049,6 +1049,10 @@ impl<'a> Gen<'a> {
             };
             return full.iter().map(|s| s.to_string()).collect();
         }
+        // the empty list: nothing is supported, every shape is refused (and has to be refused in words)
+        if self.rng.chance(1, 10) {
+            return vec![];
+        }
         let n = self.rng.range(1, 3);
         let mut v = all.clone();
         self.rng.shuffle(&mut v);
